@@ -260,6 +260,13 @@ def edge_other_scopes(tier):
     ]
 
 
+def edge_value_scopes(tier):
+    """C12 is anchored in the collections; the value types (strings, pods) are swept at their smallest sizes too, and an
+    unexpected panic of one of their operations is counted as a C12 finding (`finding_counts_for` in check)."""
+    return [S("podstr", n=n, chars=2) for n in (0, 1, 3)] + [S("pstr", w=w, size=w + 2, chars=2) for w in (1, 2)] + \
+           [S("pstr", w=1, size=0, chars=1), S("pod", kind=0), S("pod", kind=4)]
+
+
 # ---------------------------------------------------------------------------
 # strings / pods
 # ---------------------------------------------------------------------------
@@ -484,7 +491,7 @@ PROPERTIES = {
         "rule": "implementation transitions (buffer x operation): all 256 byte values for PodBool at lengths 0,1,2,8; none-pattern and other patterns for PodOption over inner types of 1, 4, 8 (non-zero none-pattern) and 32 bytes at lengths n-1, n, n+1, n+7; non-trivial = distinct non-zero buffers",
     },
     "C12": {
-        "scopes": lambda tier: edge_tree_scopes(tier) + edge_other_scopes(tier),
+        "scopes": lambda tier: edge_tree_scopes(tier) + edge_other_scopes(tier) + edge_value_scopes(tier),
         "relevant": rel_C12,
         "assumptions": COMMON_ASSUME + ["termination of the Rust loops is only watched (timeouts), the model terminates by structural recursion"],
     },
